@@ -27,11 +27,19 @@ structure Cells where
   dropL : Nat → Kind → Bool
   dropR : Nat → Kind → Bool
   dropN : Kind → Bool
+  /-- the crate's ternary encodings: `BETWEEN ↦ AND`, `LIKE ↦ ESCAPE` -/
+  mixOf : Nat → Option Nat
+  /-- first / second operand of a mixfix form, under the mixfix operator -/
+  dropML : Nat → Kind → Bool
+  dropMR : Nat → Kind → Bool
 
 def policyOf (c : Cells) : Policy :=
   { dropL := fun o e => c.dropL o (kindOf e)
     dropR := fun o e => c.dropR o (kindOf e)
-    dropN := fun e => c.dropN (kindOf e) }
+    dropN := fun e => c.dropN (kindOf e)
+    mixOf := c.mixOf
+    dropML := fun o e => c.dropML o (kindOf e)
+    dropMR := fun o e => c.dropMR o (kindOf e) }
 
 /-- the finite obligation, over the operators `ops` of the dialect -/
 structure TableOK (t : Tbl) (c : Cells) (ops : List Nat) : Prop where
@@ -44,12 +52,14 @@ structure TableOK (t : Tbl) (c : Cells) (ops : List Nat) : Prop where
   /-- a dropped right child fits the right operand level (regular reading) -/
   right : ∀ o ∈ ops, ∀ i ∈ ops, c.dropR o (.bin i) = true → t.mix o ≠ some i →
     t.infx i = true ∧ t.rbp o ≤ t.lbp i
-  /-- mixfix operators: the separator node is left bare, and the two operands fit -/
-  mixHack : ∀ o ∈ ops, ∀ s, t.mix o = some s → s ∈ ops ∧ c.dropR o (.bin s) = true ∧
-    (t.infx s = true → t.lbp s < t.rbp o)
-  mixL : ∀ o ∈ ops, ∀ s, t.mix o = some s → ∀ i ∈ ops, c.dropL s (.bin i) = true →
+  /-- the engine's mixfix forms are exactly the crate's ternary encodings -/
+  mixAgree : ∀ o ∈ ops, t.mix o = c.mixOf o
+  /-- the separator is not absorbed while the first operand is read -/
+  mixSepOK : ∀ o ∈ ops, ∀ s, t.mix o = some s → s ∈ ops ∧ (t.infx s = true → t.lbp s < t.rbp o)
+  /-- the two operands of a mixfix form fit their positions -/
+  mixL : ∀ o ∈ ops, ∀ s, t.mix o = some s → ∀ i ∈ ops, c.dropML o (.bin i) = true →
     t.infx i = true ∧ t.rbp o ≤ t.lbp i
-  mixR : ∀ o ∈ ops, ∀ s, t.mix o = some s → ∀ i ∈ ops, c.dropR s (.bin i) = true →
+  mixR : ∀ o ∈ ops, ∀ s, t.mix o = some s → ∀ i ∈ ops, c.dropMR o (.bin i) = true →
     t.infx i = true ∧ t.rbp2 o ≤ t.lbp i
   /-- two operators sharing an optional separator cannot nest bare in the first operand -/
   mixSep : ∀ o ∈ ops, ∀ j ∈ ops, ∀ s, t.mix o = some s → t.mix j = some s → t.mand j = false →
@@ -62,6 +72,8 @@ structure TableOK (t : Tbl) (c : Cells) (ops : List Nat) : Prop where
   unL : ∀ o ∈ ops, c.dropL o .un = false
   unR : ∀ o ∈ ops, c.dropR o .un = false
   unN : c.dropN .un = false
+  unML : ∀ o ∈ ops, c.dropML o .un = false
+  unMR : ∀ o ∈ ops, c.dropMR o .un = false
 
 /-- is `r` read as the two operands of mixfix `o`? -/
 def isMixShape (t : Tbl) (o : Nat) : Ex → Bool
@@ -97,13 +109,13 @@ not a bare prefix `NOT`) -/
 inductive AllGE (t : Tbl) (p : Policy) (ops : List Nat) (x : Nat) : Ex → Prop where
   | atom (a) : AllGE t p ops x (.atom a)
   | node (k args) : AllGE t p ops x (.node k args)
-  | binReg (l o r) : mixParts t p o r = none → o ∈ ops → t.infx o = true →
+  | binReg (l o r) : mixParts p o r = none → o ∈ ops → t.infx o = true →
       (t.mix o = none ∨ t.mand o = false) → x ≤ t.lbp o → (p.dropL o l = true → AllGE t p ops x l) →
       (p.dropR o r = true → AllGE t p ops x r) → AllGE t p ops x (.bin l o r)
-  | binMix (l o r a s b) : mixParts t p o r = some (a, s, b) → o ∈ ops → t.infx o = true →
+  | binMix (l o r a s b) : mixParts p o r = some (a, s, b) → o ∈ ops → t.infx o = true →
       x ≤ t.lbp o →
       (p.dropL o l = true → AllGE t p ops x l) →
-      (p.dropR s b = true → AllGE t p ops x b) → AllGE t p ops x (.bin l o r)
+      (p.dropMR o b = true → AllGE t p ops x b) → AllGE t p ops x (.bin l o r)
 
 theorem AllGE.mono {t : Tbl} {p : Policy} {ops : List Nat} {x y : Nat} {e : Ex}
     (h : AllGE t p ops x e) (hy : y ≤ x) : AllGE t p ops y e := by
